@@ -2112,10 +2112,17 @@ class Client:
             max_packets = 1
 
         for _ in range(0, max_packets):
-            if self._sock is None:
+            sock = self._sock
+            if sock is None:
                 return MQTTErrorCode.MQTT_ERR_NO_CONN
             rc = self._packet_read()
             if rc > 0:
+                if self._sock is not None and self._sock is not sock:
+                    # The connection this error belongs to has already been closed,
+                    # and reported through on_disconnect, while the packet was handled
+                    # (a write failed); the callback has opened a new connection
+                    # (reconnect()), which must not be closed for it.
+                    return rc
                 return self._loop_rc_handle(rc)
             elif rc == MQTTErrorCode.MQTT_ERR_AGAIN:
                 return MQTTErrorCode.MQTT_ERR_SUCCESS
